@@ -61,6 +61,7 @@ func installHooks() {
 	hooksOnce.Do(func() {
 		verifhook.Set(func(name string, a, b uint64, s string) {
 			xfer.HookTicks.Add(1)
+			xfer.TraceEvent(name, a, b, s)
 			hookGate(name, a, b, s)
 			if h := extraHook; h != nil {
 				h(name, a, b, s)
